@@ -60,24 +60,31 @@ def main(argv=None):
             done.add(k["signature"])
             print("KNOWN-FINDING: property=%s %s [%s]" % (prop, k["what"], k["signature"]))
     nviol = 0
-    rc = 0
-    for sig, f in new[:12]:
+    unconfirmed = 0
+    tried = 0
+    for sig, f in new:
+        if nviol >= 12 or tried >= 60:
+            break
+        tried += 1
         path = write_replay(prop, sig, f)
         ok = True if a.no_confirm else confirm(prop, path)
-        if ok is None:
-            print("HARNESS-ERROR: replay of %s is not reproducible" % path)
-            rc = max(rc, 2)
-            continue
         if ok:
             nviol += 1
             print("VIOLATION property=%s replay=%s" % (prop, path))
             print("  signature: %s (x%d)\n  what: %s" % (sig, f["count"], f["what"]))
-            rc = max(rc, 1)
         else:
-            print("HARNESS-ERROR: violation %s did not reproduce in a fresh interpreter (%s)" % (sig, path))
-            rc = max(rc, 2)
-    if len(new) > 12:
-        print("... %d further distinct violation signatures not written" % (len(new) - 12))
+            # not believed: the single case, replayed twice in fresh interpreters, did not show it (or showed it
+            # differently) - e.g. it depended on what an earlier case left behind in the worker process
+            unconfirmed += 1
+            os.remove(path)
+            print("UNCONFIRMED: %s %s (%s)" % (sig, "differs between two replays" if ok is None else "did not reproduce in a fresh interpreter", f["what"][:120]))
+    if len(new) > tried:
+        print("... %d further distinct violation signatures not written" % (len(new) - tried))
+    # a confirmed violation is a verdict; observations that could not be confirmed and nothing else are a harness error
+    rc = 1 if nviol else (2 if unconfirmed else 0)
+    if rc == 2:
+        print("HARNESS-ERROR: %d observation(s), none reproducible from its recorded case" % unconfirmed)
+    cov["unconfirmed_observations"] = unconfirmed
     write_evidence(prop, a.tier, seed, mod, cov, wall, nviol if rc != 2 else len(new))
     d = cov.d
     print("%s tier=%s states=%d transitions=%d nontrivial=%d outcomes=%s exhaustive=%s wall=%.1fs violations=%d known=%d"
